@@ -1029,9 +1029,9 @@ func main() {
 		{Kind: "createx", KT: "NISTP256ECDHKW"}, {Kind: "import", KT: "ED25519"}, {Kind: "import", KT: "ECDSAP256DER", UID: true},
 		{Kind: "rotate", Ref: 0}, {Kind: "rotate", Ref: 1}, {Kind: "get", Ref: 0}, {Kind: "export", Ref: 0}, {Kind: "export", Ref: 1}}
 
-	depth, nRandom := 2, 240
+	depth, nRandom := 2, 4000
 	if args.Tier == "thorough" {
-		depth, nRandom = 3, 4000
+		depth, nRandom = 3, 12000
 	}
 
 	for _, cfg := range cfgs {
